@@ -269,11 +269,14 @@ def extraction_rule(ctx, p, K0):
         b = {k: norm_text(v) for k, v in wire.kw(c, f).items()}
         tgt = [norm_text(n.targets[0]) for n in g.body_nodes() if isinstance(n, ast.Assign) and n.value is c]
         got.append((tgt[0] if tgt else None, b))
-    want = [("(y0, y1)", {"x0o": "original_region[0]", "x1o": "original_region[1]", "x0e": "extraction_region[0]", "x1e": "extraction_region[1]"}),
-            ("(x0, x1)", {"x0o": "original_region[2]", "x1o": "original_region[3]", "x0e": "extraction_region[2]", "x1e": "extraction_region[3]"})]
-    ctx.ob(rule, g.key, got == want, where=g, node=cs[0] if cs else g.node, construct=str(got)[:400], message="rows must be clipped with components (0, 1) of BOTH regions and columns with components (2, 3) of both")
+    want = [{"x0o": "original_region[0]", "x1o": "original_region[1]", "x0e": "extraction_region[0]", "x1e": "extraction_region[1]"},
+            {"x0o": "original_region[2]", "x1o": "original_region[3]", "x0e": "extraction_region[2]", "x1e": "extraction_region[3]"}]
+    # the two clipped pairs are whatever locals they are unpacked into; the region is built from them in the order (rows lo, rows hi, columns lo, columns hi)
+    pair_names = [tg.strip("()").replace(" ", "").split(",") if tg else [] for tg, _ in got]
+    ctx.ob(rule, g.key, [b_ for _, b_ in got] == want and all(len(pn) == 2 for pn in pair_names), where=g, node=cs[0] if cs else g.node, construct=str(got)[:400], message="rows must be clipped with components (0, 1) of BOTH regions and columns with components (2, 3) of both")
     rets = [r for r in wire.returns_of(g) if isinstance(r.value, ast.Call)]
-    ok = len(rets) == 1 and norm_text(rets[0].value.args[0] if rets[0].value.args else wire.kw(rets[0].value).get("region")) == "(y0, y1, x0, x1)"
+    flat = [n_ for pn in pair_names for n_ in pn]
+    ok = len(rets) == 1 and len(flat) == 4 and norm_text(rets[0].value.args[0] if rets[0].value.args else wire.kw(rets[0].value).get("region")).replace(" ", "") == "(" + ",".join(flat) + ")"
     none_ret = [r for r in wire.returns_of(g) if norm_text(r.value) == "None"]
     tests = [t_ for r in none_ret for t_, truth in wire.path_conds(g, r) if truth]
     # the clipping routine answers (None, None) or a pair (decided above, ordering by ordering): an axis is absent iff either of its two components is None,
